@@ -1,3 +1,4 @@
+@staticmethod
 def spec(self, value, attr):
     if isinstance(value, torch.Tensor | None):
         self.updates_[attr].pos = value
